@@ -125,7 +125,8 @@ pub struct Reply {
     /// duplicates with DIFFERENT values appended after the genuine attributes (the client must use the first):
     /// bit 0 second REALM, bit 1 second NONCE, bit 2 second ERROR-CODE, bit 3 second PASSWORD-ALGORITHMS;
     /// bit 4: a 438 carries a PASSWORD-ALGORITHMS list that differs from the one of the session;
-    /// bit 5: the second NONCE (bit 1) is a nonce cookie with the opposite feature bits instead of a plain nonce
+    /// bit 5: the second NONCE (bit 1) is a nonce cookie with the opposite feature bits instead of a plain nonce;
+    /// bit 6: a 401 / 438 whose nonce cookie announces password algorithms comes without the PASSWORD-ALGORITHMS list
     #[serde(default)]
     pub twist: u8,
 }
